@@ -1,6 +1,7 @@
 """C16 -- dose filtering applies the Grant-Grigorieff exposure attenuation"""
 from .common import *
 from . import C09 as _c09
+from . import C15 as _c15
 from sa import imgdom
 
 TITLE = "Dose filtering applies the Grant-Grigorieff exposure attenuation"
@@ -184,6 +185,7 @@ def o163(ctx):
 def _obligations():
     return [
         Obligation("O16.4", "loaders: tlt_load passes arrays / lists through and returns every file value (sorted only on request); total_dose_load hands doses back as given (shared with C09)", lambda ctx: (_c09.o96(ctx), _c09.o98(ctx)), floor=12),
+        Obligation("O16.5", "TiltStack holds the caller's array unchanged (axes permuted at most), reads files unpermuted, returns / writes in the stack's type (shared with C15)", _c15.o155, floor=8),
         Obligation("O16.1", "extracted Fourier gain equals the exposure attenuation for every size/index/dose; layouts cancel; pairing", o161, floor=60),
         Obligation("O16.3", "TiltStack protocol: options plumbed, write after update, correct_order returned", o163, floor=5),
     ]
